@@ -197,7 +197,9 @@ def machineStep (legacy : Bool) (s : Option ConnHb.St) (toks : List String) : Op
   match toks, s with
   | ["init", cm, b], _ =>
     match cm.toNat?, b.toNat? with
-    | some cm, some b => (some { c := Conn.init cm b legacy }, ["ok"])
+    -- `ChannelSlot::new`: a configured bound of 0 is treated as 1 (fix c050655); the model's
+    -- `bound` is the effective capacity of the queues
+    | some cm, some b => (some { c := Conn.init cm (max b 1) legacy }, ["ok"])
     | _, _ => (s, ["bad-op"])
   | "decl" :: h :: dc :: df :: rest, some st =>
     match fromHex h, fromHex dc, fromHex df with
